@@ -265,6 +265,92 @@ def _instantiate(g: ast.FunctionDef, bound, result_target, nested: bool):
     return pre + out
 
 
+def _generator_ok(g: ast.FunctionDef) -> bool:
+    if g.name in PROTECTED or g.name.startswith('__'):
+        return False
+    if any(not (isinstance(d, ast.Name) and d.id == 'staticmethod') for d in g.decorator_list):
+        return False
+    a = g.args
+    if a.vararg or a.kwarg or a.kwonlyargs:
+        return False
+    yields = 0
+    for x in ast.walk(g):
+        if isinstance(x, (ast.YieldFrom, ast.Await, ast.Global, ast.Nonlocal, ast.Try, ast.With)):
+            return False
+        if x is not g and isinstance(x, (ast.FunctionDef, ast.AsyncFunctionDef, ast.ClassDef, ast.Lambda)):
+            return False
+        if isinstance(x, ast.Return) and x.value is not None:
+            return False
+        if isinstance(x, ast.Return):
+            return False          # an early `return` ends the generator: not expressible after substitution
+        if isinstance(x, ast.Call) and ((isinstance(x.func, ast.Name) and x.func.id == g.name) or
+                                        (isinstance(x.func, ast.Attribute) and x.func.attr == g.name)):
+            return False
+        if isinstance(x, ast.Yield):
+            yields += 1
+    if not 1 <= yields <= 3:
+        return False
+    # every yield is a statement of its own
+    stmt_yields = sum(1 for x in ast.walk(g) if isinstance(x, ast.Expr) and isinstance(x.value, ast.Yield))
+    return stmt_yields == yields and len(list(ast.walk(g))) < 700
+
+
+def _own_jumps(body) -> bool:
+    """break / continue that belong to the loop whose body this is"""
+    def walk(stmts):
+        for s in stmts:
+            if isinstance(s, (ast.Break, ast.Continue)):
+                return True
+            if isinstance(s, (ast.For, ast.While, ast.FunctionDef, ast.ClassDef)):
+                if isinstance(s, (ast.For, ast.While)) and walk(s.orelse):
+                    return True
+                continue
+            for fld in ('body', 'orelse', 'finalbody'):
+                sub = getattr(s, fld, None)
+                if isinstance(sub, list) and sub and isinstance(sub[0], ast.stmt) and walk(sub):
+                    return True
+            for h in getattr(s, 'handlers', []) or []:
+                if walk(h.body):
+                    return True
+        return False
+    return walk(body)
+
+
+def _instantiate_generator(g, bound, target, body):
+    _counter[0] += 1
+    tag = f'__i{_counter[0]}'
+    pre, mapping, rename = [], {}, {}
+    stored = _stores(g)
+    for p, a in bound.items():
+        if _simple_arg(a) and p not in stored:
+            mapping[p] = a
+        else:
+            tmp = f'{p}{tag}'
+            pre.append(ast.Assign(targets=[ast.Name(id=tmp, ctx=ast.Store())], value=a, type_comment=None))
+            rename[p] = tmp
+    for nm in stored:
+        rename.setdefault(nm, f'{nm}{tag}')
+    # names the loop body binds must not collide with the generator's (they are renamed) - and the body's reads of
+    # its own names stay as they are
+    gbody = [copy.deepcopy(s) for s in g.body
+             if not (isinstance(s, ast.Expr) and isinstance(s.value, ast.Constant) and isinstance(s.value.value, str))]
+    r = _Renamer(mapping, rename)
+    gbody = [r.visit(s) for s in gbody]
+
+    class Y(ast.NodeTransformer):
+        def visit_Expr(self, node):
+            if isinstance(node.value, ast.Yield):
+                val = node.value.value if node.value.value is not None else ast.Constant(value=None)
+                asg = ast.Assign(targets=[copy.deepcopy(target)], value=val, type_comment=None)
+                return [asg] + [copy.deepcopy(s) for s in body]
+            return node
+    out = []
+    for s in gbody:
+        res = Y().visit(s)
+        out.extend(res if isinstance(res, list) else [res])
+    return pre + out
+
+
 def _expr_callee(g):
     body = [s for s in g.body if not (isinstance(s, ast.Expr) and isinstance(s.value, ast.Constant))]
     if len(body) == 1 and isinstance(body[0], ast.Return) and body[0].value is not None:
@@ -433,6 +519,41 @@ class _Inliner:
                 call, target = st.value, st.target
             elif isinstance(st, ast.Return) and isinstance(st.value, ast.Call):
                 call, target = st.value, 'return'
+            # C.extend(gen(args))  ->  for y in gen(args): C.append(y)       (so that the generator can be un-extracted)
+            if isinstance(st, ast.Expr) and isinstance(st.value, ast.Call) and isinstance(st.value.func, ast.Attribute) \
+                    and st.value.func.attr == 'extend' and len(st.value.args) == 1 and isinstance(st.value.args[0], ast.Call):
+                res = self._resolve(owner_cls, f, st.value.args[0], nested)
+                if res is not None and _generator_ok(res[0]):
+                    _counter[0] += 1
+                    y = f'__y__i{_counter[0]}'
+                    app = ast.Expr(value=ast.Call(func=ast.Attribute(value=st.value.func.value, attr='append', ctx=ast.Load()),
+                                                  args=[ast.Name(id=y, ctx=ast.Load())], keywords=[]))
+                    loop = ast.For(target=ast.Name(id=y, ctx=ast.Store()), iter=st.value.args[0], body=[app], orelse=[],
+                                   type_comment=None)
+                    ast.copy_location(loop, st)
+                    ast.fix_missing_locations(loop)
+                    stmts[i] = loop
+                    continue
+            # for x in gen(args): BODY   with gen a small generator: gen's body with `yield e` -> `x = e; BODY`
+            if isinstance(st, ast.For) and isinstance(st.iter, ast.Call) and not st.orelse:
+                res = self._resolve(owner_cls, f, st.iter, nested)
+                if res is not None and _generator_ok(res[0]) and not _own_jumps(st.body):
+                    g, recv, static = res
+                    bound = _bind(g, st.iter, recv, static)
+                    if bound is not None:
+                        new = _instantiate_generator(g, bound, st.target, st.body)
+                        if new is not None:
+                            g._malsa_inlined = True
+                            for s_ in new:
+                                for x in ast.walk(s_):
+                                    _counter[1] += 1
+                                    x.lineno = getattr(st, 'lineno', 1)
+                                    x.col_offset = 1000 + _counter[1]
+                                    x.end_lineno = x.lineno
+                                    x.end_col_offset = x.col_offset + 1
+                            stmts[i:i + 1] = new
+                            self.count += 1
+                            continue
             if isinstance(st, ast.For) and isinstance(st.iter, ast.Call):
                 res = self._resolve(owner_cls, f, st.iter, nested)
                 if res is not None and _callee_ok(res[0]) and _ends_with_value(res[0]):
